@@ -4,15 +4,16 @@
 cd "$(dirname "$0")/.."
 rm -f replays/*.json
 fail=0
+ISO=""; for a in "$@"; do [ "$a" = "--isolated" ] && ISO="--isolated"; done
 for c in C01 C02 C03 C04 C05 C06 C07 C08 C09 C10 C11 C12 C13 C16 C17 C18 C20; do
   out=$(bin/verif check $c 2>&1); rc=$?
   echo "$out" | grep -E "^\[C..\] (runs|hist)" | cut -c1-200
   if [ $rc -ne 0 ]; then echo "CLEAN-TREE ALARM $c rc=$rc"; echo "$out" | grep -E "VIOLATION|HARNESS|^  C" | cut -c1-400; fail=1; fi
 done
-if [ "$1" != "--no-seeded" ]; then
+if [ "$1" != "--no-seeded" ] && [ "$2" != "--no-seeded" ]; then
 for d in seeded/S-*; do
   sid=$(basename $d); p=$(python3 -c "import json;print(json.load(open('$d/meta.json'))['property'])")
-  r=$(bin/seedcheck.py run $sid $p 2>&1 | grep -v "^ " | tail -1)
+  r=$(bin/seedcheck.py run $sid $p $ISO 2>&1 | grep -v "^ " | tail -1)
   echo "$r" | cut -c1-160
   case "$r" in *"exit=1"*) ;; *) echo "MISSED $sid"; fail=1;; esac
 done
